@@ -34,7 +34,9 @@ fn delays(i: u8) -> Duration {
         0 => Duration::from_millis(0),
         1 => Duration::from_millis(5),
         2 => Duration::from_millis(15),
-        _ => Duration::MAX,
+        3 => Duration::MAX,
+        // 2^64 + 384 milliseconds: must saturate, not truncate to 384
+        _ => Duration::from_secs(18_446_744_073_709_552),
     }
 }
 
@@ -268,8 +270,8 @@ impl<M: SyncApi + LockName> Core for TimerCore<M> {
                         for d in 0..(if self.bounded { 2 } else { DEADLINES.len() }) {
                             out.push(Ev::new(CREATE, i as u8, d as u8));
                         }
-                        for d in 0..4 {
-                            if self.bounded && d == 2 {
+                        for d in 0..5 {
+                            if self.bounded && (d == 2 || d == 4) {
                                 continue;
                             }
                             out.push(Ev::new(CREATE_DELAY, i as u8, d));
